@@ -6,7 +6,10 @@
    (._<uuid>_<target> or <target>~), 2.. = anything else that shows up. *)
 From SV Require Import Base Atomic.
 
-Inductive site := SJobDoc | SProjectDoc | SFlush | SMigration | SCache | SRawDirect | SRawAtomic.
+(* SSyncCopy: the destination job document of Job.sync(..., doc_sync=DocSync.COPY) (copied as an ordinary file);
+   SRollback: the restore of the document after a raising doc_sync — the two places where signac itself rewrites a
+   document in place (known finding C10 tag 1) *)
+Inductive site := SJobDoc | SProjectDoc | SFlush | SMigration | SCache | SRawDirect | SRawAtomic | SSyncCopy | SRollback.
 Inductive outcome := OOld | ONew | OTorn | OEmpty | OMissing.
 
 Definition outcome_eqb (a b : outcome) : bool :=
@@ -49,6 +52,7 @@ Definition model_prog (c : case_C10) : list wstep :=
   | None =>
       match k_site c with
       | SCache => cache_write 1 0 (k_chunks c)
+      | SSyncCopy | SRollback => direct_write 0 (k_chunks c)      (* shutil.copy / copy2: open(dst, 'wb'); write *)
       | s => json_write (write_concern_of s) (k_thread c) 1 0 (k_chunks c)
       end
   end.
@@ -157,10 +161,23 @@ Definition violation_C10 (c : case_C10) : bool := negb (holds_C10 c).
 
 (* precondition of C10_model_holds: the write changes the content, and the abstract contents are short enough
    for the model reader's single big read *)
+Definition inplace_site (s : site) : bool := match s with SSyncCopy | SRollback => true | _ => false end.
+
 Definition pre_C10 (c : case_C10) : bool :=
+  negb (inplace_site (k_site c)) &&
   negb (obytes_eqb (read_name (fs0 c) 0) (Some (new_content c)))
   && (length (new_content c) <=? big)%nat
   && match read_name (fs0 c) 0 with Some d => (length d <=? big)%nat | None => true end.
+
+(* known finding 1, recognised from the input alone: the case is the document copy of a sync with doc_sync=COPY, or
+   the roll-back after a raising doc_sync *)
+Definition classify_C10 (c : case_C10) : N := if inplace_site (k_site c) then 1%N else 0%N.
+Fixpoint tags_aux10 (l : list case_C10) (i : N) : list N :=
+  match l with
+  | [] => []
+  | x :: r => (if N.eqb (classify_C10 x) 0 then [] else [(i * 100 + classify_C10 x)%N]) ++ tags_aux10 r (N.succ i)
+  end.
+Definition known_C10 (cs : list case_C10) : list N := tags_aux10 cs 0%N.
 
 Definition mismatches_C10 (cs : list case_C10) : list N := indices_where mismatch_C10 cs.
 Definition violations_C10 (cs : list case_C10) : list N := indices_where violation_C10 cs.
